@@ -8,6 +8,8 @@
 //!   * command-heavy (up to ~2600 short commands whose insert / copy lengths and distances depend on the region: command and
 //!     distance block splits),
 //!   * tiny (0, 1, few commands; no literals; no distances),
+//!   * types (26 regions of ~540 literals over byte ranges of their own, 13 contexts: the limit of 19 literal block types is reached) and, once per run,
+//!     types256 (300 such regions, one context: 256 literal block types; too long for a correspondence line, search oracle only),
 //!   * `num_contexts` 1, 2, 3, 13 with the three static maps of `encode.rs` (`kStaticContextMapSimpleUTF8`,
 //!     `kStaticContextMapContinuation`, `kStaticContextMapComplexUTF8`, transcribed here) or random maps with entries `< num_contexts`,
 //!     context modes 0..3, ring of 2^k bytes at a wrapped position;
@@ -18,7 +20,8 @@
 //!   greedy build <mode> <num_contexts> <static map csv|-> <prev> <prev2> <mask> <pos> <ringhex> <cmds> <exc>
 //!       -> `ok <lit> <cmd> <dist> cmap=<size>:<digest> lh=<size>:<digest> ch=<size>:<digest> dh=<size>:<digest>` | `panic`
 //!          split = num_types/num_blocks/types/lengths (the first num_blocks entries), digests = FNV over the literal context map,
-//!          resp. over every `data_` entry of the first `size` histograms
+//!          resp. over every `data_` entry of the first `size` histograms; then `opt=<lit>:<cmd>:<dist>`: the three histogram digests behind the real
+//!          `BrotliOptimizeHistograms(64, mb)` (model `optimizeHistograms`)
 //!   greedy log2 <exc> -> `<digest of logs_16> <digest of FastLog2(256..2^20)>`
 //!   exc = the entries of `logs_16` / `logs_8` that differ from `(v as f64).log2() as f32` (recomputed here over the whole tables on
 //!         every run), `v:hexbits,...` | `-`
@@ -91,6 +94,7 @@ fn log_exceptions() -> String {
 struct Case { kind: &'static str, mode: u32, nctx: usize, scm: Vec<u32>, prev: u8, prev2: u8, mask: usize, pos: usize, ring: Vec<u8>, cmds: Vec<Command>, bytes: Vec<u8>, wellformed: bool }
 
 fn region_byte(rng: &mut Rng, style: u64, i: usize) -> u8 {
+    if style >= 100 { return (((style - 100) * 37) % 250) as u8 + rng.below(5) as u8; }   // kind "types": a narrow byte range of its own per region
     match style {
         0 => b'0' + rng.below(10) as u8,
         1 => b'a' + rng.below(26) as u8,
@@ -111,6 +115,9 @@ fn gen_case(rng: &mut Rng, kind: &'static str) -> Case {
     let (nregions, max_total, max_cmds) = match kind {
         "tiny" => (1usize, rng.below(40) as usize, 8usize),
         "lit" => (rng.range(1, 9) as usize, rng.range(600, 14000) as usize, 400),
+        // every region looks new to the splitter: as many literal block types as `max_block_types` allows (19 with 13 contexts)
+        "types" => (26usize, 14000usize, 60usize),
+        "types256" => (300usize, 150000usize, 700usize),
         "cmd" => (rng.range(1, 6) as usize, 13000, rng.range(1100, 2600) as usize),
         _ => (rng.range(1, 6) as usize, rng.range(200, 9000) as usize, 1500),
     };
@@ -120,11 +127,12 @@ fn gen_case(rng: &mut Rng, kind: &'static str) -> Case {
     let mut regions: Vec<(usize, u64, (u64, u64, u64, u64))> = Vec::new();
     let mut end = 0usize;
     for r in 0..nregions {
-        let style = if alt { if r % 2 == 0 { sa } else { sb } } else { rng.below(8) };
-        let rlen = match kind { "tiny" => max_total, "lit" => rng.range(300, 3000) as usize, "cmd" => rng.range(1500, 5000) as usize, _ => rng.range(100, 3000) as usize };
+        let style = if kind == "types" || kind == "types256" { 100 + r as u64 } else if alt { if r % 2 == 0 { sa } else { sb } } else { rng.below(8) };
+        let rlen = match kind { "tiny" => max_total, "types" | "types256" => rng.range(515, 560) as usize, "lit" => rng.range(300, 3000) as usize, "cmd" => rng.range(1500, 5000) as usize, _ => rng.range(100, 3000) as usize };
         end = (end + rlen).min(max_total);
         let cs = match (kind, rng.below(4)) {
             ("lit", 0) => (600u64, 2u64, 6u64, 0u64), ("lit", _) => (200, 2, 12, rng.below(3)),
+            ("types", _) | ("types256", _) => (600, 2, 4, 0),
             ("cmd", 0) => (1, 2, 3, 0), ("cmd", 1) => (3, 4, 9, 1), ("cmd", 2) => (6, 2, 2, 2), ("cmd", _) => (2, 10, 20, rng.below(3)),
             (_, 0) => (40, 2, 30, 0), (_, _) => (8, 2, 9, rng.below(3)),
         };
@@ -134,7 +142,9 @@ fn gen_case(rng: &mut Rng, kind: &'static str) -> Case {
     while out.len() < total && cmds.len() < max_cmds {
         let (_, style, (imax, cmin, cmax, dmode)) = *regions.iter().find(|r| out.len() < r.0).unwrap();
         let rem = total - out.len();
-        let mut ins = if kind == "lit" && rng.chance(1, 3) { rng.range(imax / 2, imax) as usize } else { rng.below(imax + 1) as usize };
+        // kind "types": one command = 512 literals = one block of the literal splitter, over a byte range of its own
+        let style = if kind == "types" || kind == "types256" { 100 + cmds.len() as u64 } else { style };
+        let mut ins = if kind == "types" || kind == "types256" { 512 } else if kind == "lit" && rng.chance(1, 3) { rng.range(imax / 2, imax) as usize } else { rng.below(imax + 1) as usize };
         if out.is_empty() && ins == 0 { ins = 1; }
         let ins = ins.min(rem);
         for _ in 0..ins { let b = region_byte(rng, style, out.len()); out.push(b); }
@@ -165,8 +175,9 @@ fn gen_case(rng: &mut Rng, kind: &'static str) -> Case {
     // three quarters of the cases stand at the start of a stream (previous bytes 0, 0: these go through the round-trip oracle)
     if !rng.chance(1, 4) { ring[(pos - 1) & mask] = 0; ring[(pos - 2) & mask] = 0; }
     let prev = ring[(pos - 1) & mask]; let prev2 = ring[(pos - 2) & mask];
-    let nctx = *rng.pick(&[1usize, 1, 1, 2, 3, 13, 13, 5]);
-    let scm: Vec<u32> = match nctx { 1 => vec![], 2 => SIMPLE_UTF8.to_vec(), 3 => CONTINUATION.to_vec(), 13 if rng.chance(2, 3) => COMPLEX_UTF8.to_vec(), n => (0..64).map(|_| rng.below(n as u64) as u32).collect() };
+    let nctx = if kind == "types" { 13 } else if kind == "types256" { 1 } else { *rng.pick(&[1usize, 1, 1, 2, 3, 13, 13, 5]) };
+    // kind "types": all literals under one static context (else blocks over disjoint byte ranges fall into different contexts and merging them costs nothing)
+    let scm: Vec<u32> = if kind == "types" { vec![0; 64] } else { match nctx { 1 => vec![], 2 => SIMPLE_UTF8.to_vec(), 3 => CONTINUATION.to_vec(), 13 if rng.chance(2, 3) => COMPLEX_UTF8.to_vec(), n => (0..64).map(|_| rng.below(n as u64) as u32).collect() } };
     Case { kind, mode: rng.below(4) as u32, nctx, scm, prev, prev2, mask, pos, ring, cmds, bytes: out, wellformed: true }
 }
 
@@ -255,11 +266,17 @@ fn run_case(c: &Case, exc: &str, rep: &mut Report, lines: &mut Vec<(String, Stri
         return;
     }
     let b = from_real(&mbr);
-    if op.len() < 64000 { lines.push((op.clone(), answer(&b))); rep.count("corr.build.ok"); } else { rep.count("corr.build.line_too_long"); }
+    // `BrotliOptimizeHistograms` as `encode.rs` runs it behind the builder (the round trip below writes the optimised histograms)
+    let opt = if catch_unwind(AssertUnwindSafe(|| brotli::enc::metablock::BrotliOptimizeHistograms(64, &mut mbr))).is_ok() {
+        let o = from_real(&mbr); format!("opt={}:{}:{}", digest_histos(&o.lh), digest_histos(&o.ch), digest_histos(&o.dh))
+    } else { if c.wellformed { rep.violation("greedy:panic", "BrotliOptimizeHistograms panicked behind the greedy builder", case_json()); } "opt=panic".to_string() };
+    if op.len() < 64000 { lines.push((op.clone(), format!("{} {}", answer(&b), opt))); rep.count("corr.build.ok"); } else { rep.count("corr.build.line_too_long"); }
     rep.count(&format!("num_contexts.{}", c.nctx));
+    if c.kind == "types" { rep.count(&format!("types.literal_block_types.{:02}.blocks.{:02}", b.lit.0, b.lit.1.len())); }
     for (n, s) in [("literal", &b.lit), ("command", &b.cmd), ("distance", &b.dist)] {
         if s.0 > 1 { rep.count(&format!("{}.block_types>1", n)); }
         if s.0 > 2 { rep.count(&format!("{}.block_types>2", n)); }
+        if n == "literal" && c.nctx >= 1 && s.0 == 256 / c.nctx { rep.count(&format!("literal.block_types=max_block_types({})", 256 / c.nctx)); }
         if s.1.len() > s.0 { rep.count(&format!("{}.type_reused(merge-with-second-to-last)", n)); }
         if s.2.iter().any(|l| *l > 2 * (if n == "command" { 1024 } else { 512 })) { rep.count(&format!("{}.merged_blocks", n)); }
     }
@@ -308,7 +325,6 @@ fn run_case(c: &Case, exc: &str, rep: &mut Report, lines: &mut Vec<(String, Stri
     if len >= 1 && consumed == len && c.prev == 0 && c.prev2 == 0 {
         let mut p = base_params(5, 22);
         p.dist = dist_params();
-        brotli::enc::metablock::BrotliOptimizeHistograms(64, &mut mbr);
         let mut storage = vec![0u8; 4 * len + 40 * c.cmds.len() + 70000];
         let mut six = 0usize;
         put_bits(&mut storage, &mut six, 4, ((22 - 17) << 1) | 1);     // WBITS 22 (window 2^22 - 16 > every distance used)
@@ -352,6 +368,7 @@ pub fn run_cmd(args: &Args) {
         let mut r = Report::default();
         for i in 0..per_task {
             let kind = match i % 7 { 0 | 1 => "lit", 2 | 3 => "cmd", 4 => "mixed", 5 => "tiny", _ => "mixed" };
+            let kind = if i == 8 && t % 4 == 0 { "types" } else if i == 9 && t == 0 { "types256" } else { kind };
             let mut c = gen_case(&mut rng, kind);
             if i % 7 == 6 { c = mutate(&mut rng, c); }
             run_case(&c, &exc2, &mut r, &mut lines);
